@@ -16,8 +16,8 @@ inserted on every path that reaches build_delta_command (without them the zone s
 (g) the watermark is the MAXIMUM over everything materialised, whatever order the batches arrive in: MaterializedSink::append and bootstrap_from_manifest change self.high_water only through
 HighWaterMark::advance (never by assigning one frame's mark); delta batches arrive memtable-first and shard by shard, so 'the last frame' is not the newest event.
 """
-FLOOR = 10
-REQUIRED = ["C14.a", "C14.b", "C14.c", "C14.d1", "C14.d2", "C14.e", "C14.f", "C14.g", "C14.h", "C14.i"]
+FLOOR = 11
+REQUIRED = ["C14.a", "C14.b", "C14.c", "C14.d1", "C14.d2", "C14.e", "C14.f", "C14.g", "C14.h", "C14.i", "C14.j"]
 
 
 def run(ctx):
@@ -262,3 +262,35 @@ def run(ctx):
             bad.append(("mark-column-fixed-name", "the frame high-water mark is computed from the column named `timestamp` while SHOW applies it to the remembered query's USING field", sp(hits[0][0], hits[0][1].bb)))
         return bad
     ctx.run("C14.i", "K11 SIB", "materialize::store::codec::encoder vs show::orchestrator", "the mark and the delta filter refer to the same time column", i_)
+
+    def j_(inst):
+        # the SHOW pruner finds a zone's metadata by position (metas[zone_id]); the metadata writer therefore
+        # has to keep the entries in zone-plan order
+        pr = F.fn("MaterializationPruner::apply")
+        positional = []
+        for c in pr.find_calls(r"slice::get$"):
+            if has_origin(pr.origins(c.args[1]), None, proj_contains=[".zone_id"]):
+                positional.append(c)
+        inst.sites = [sp(pr, c.bb) + " metas.get(zone_id)" for c in positional]
+        if not positional:
+            # lookup by key: order on disk is free
+            inst.sites.append("pruner no longer looks zone metadata up by position: nothing to require of the writer")
+            return []
+        bad = []
+        writers = [k for k in F.find(r"zone_metadata_writer::ZoneMetadataWriter::<'a>::write(_async)?(::\{closure#0\})?$") if F.fn_exact(k).find_calls(r"ZoneMeta::save(_async)?$")]
+        if len(writers) < 2:
+            raise AnchorMissing("ZoneMetadataWriter::write / write_async handing ZoneMeta::save(_async) the metadata (found %d)" % len(writers))
+        for k in writers:
+            b = F.fn_exact(k)
+            inst.sites.append(sp(b, b.find_calls(r"ZoneMeta::save(_async)?$")[0].bb))
+            for (sb_, c) in sort_sites(F, b, 3):
+                if "ZoneMeta::save" in sb_.key or "ZoneMeta::load" in sb_.key:
+                    continue
+                bad.append(("metadata-reordered:%s" % k.split("::<'a>::")[-1].split("::{")[0], "%s reorders the zone metadata (%s in %s) before it is saved: MaterializationPruner::apply reads the entry at position zone_id, so SHOW judges a zone by another zone's time range and skips zones with rows it has not materialised" % (k.split("::{")[0].split("::")[-1], c.nname.split("::")[-1], sb_.key.split("::{")[0].split("::")[-1]), sp(sb_, c.bb)))
+        seen, out = set(), []
+        for x in bad:
+            if x[0] not in seen:
+                seen.add(x[0])
+                out.append(x)
+        return out
+    ctx.run("C14.j", "K11 SIB + K4", "MaterializationPruner::apply vs ZoneMetadataWriter", "zone metadata is stored in zone-id order, the order the SHOW pruner indexes it by", j_)
